@@ -10,7 +10,7 @@ from lib.engine import R, V, enum_part, hyp_part
 ID = 'C07'
 RULE = ('exhaustive 24x60 grid of HH:MM (two zero-padding styles alternating), every 12-hour spelling (h am|pm, ham, h:mm am|pm, h:mm:ss pm, h a.m.) '
         'for h in 1..12 with boundary minutes, bare hours ("at h", "h o\'clock"), Hypothesis HH:MM:SS over 24x60x60, and compositions '
-        '"<date> at <time>" / "<date> <time>" with absolute dates (3 layouts) and today/tomorrow/yesterday x reference datetimes; '
+        '"<date> at <time>" / "<date> <time>" with absolute dates (3 layouts), today/tomorrow/yesterday and next/this/last <weekday> x reference datetimes; '
         'non-trivial = hour in {0, 12}, or minutes/seconds non-zero, or a composition; distinct = (query, reference)')
 ASSUMPTIONS = ['a time TIMEX is compared by the time it denotes (T15 = T15:00 = T15:00:00); the value string must be HH:MM:SS exactly']
 
@@ -63,6 +63,11 @@ def date_part(case):
     if dk['kind'] == 'abs':
         d = dt.date.fromisoformat(dk['iso'])
         return G.EN_LAYOUTS[dk['layout']](d), d
+    if dk['kind'] == 'weekday':
+        # 'next/this/last <weekday>': that weekday of the following/current/preceding ISO week (C08)
+        monday = ref.date() - dt.timedelta(days=ref.weekday())
+        shift = {'next': 7, 'this': 0, 'last': -7}[dk['which']]
+        return '%s %s' % (dk['which'], G.EN_WEEKDAYS[dk['wd']].lower()), monday + dt.timedelta(days=shift + dk['wd'])
     off = {'today': 0, 'tomorrow': 1, 'yesterday': -1}[dk['word']]
     return dk['word'], ref.date() + dt.timedelta(days=off)
 
@@ -170,7 +175,8 @@ def seconds_cases():
 def composed_cases():
     dates = st.one_of(
         st.builds(lambda d, l: {'kind': 'abs', 'iso': d.isoformat(), 'layout': l}, G.dates(), st.sampled_from(['iso', 'Month d, yyyy', 'm/d/yyyy'])),
-        st.sampled_from(['today', 'tomorrow', 'yesterday']).map(lambda w: {'kind': 'rel', 'word': w}))
+        st.sampled_from(['today', 'tomorrow', 'yesterday']).map(lambda w: {'kind': 'rel', 'word': w}),
+        st.builds(lambda w, i: {'kind': 'weekday', 'which': w, 'wd': i}, st.sampled_from(['next', 'this', 'last']), st.integers(0, 6)))
     hm24 = st.builds(lambda h, m: {'h': h, 'm': m, 'marker': 'none', 'form': 'HH:MM'}, st.integers(0, 23), st.integers(0, 59))
     hm12 = st.builds(lambda h, m, mk, stl: {'h': h, 'm': m, 'marker': mk, 'form': 'H:MM', 'mstyle': stl}, st.integers(1, 12),
                      st.sampled_from([0, 5, 30, 59]), st.sampled_from(['am', 'pm']), st.sampled_from([' am', 'am']))
